@@ -157,12 +157,15 @@ def run_port(case):
             pkt.perhop_time["elsewhere"] = old
             classes.add("packet arrives with an earlier stamp of this hop")
 
-    def occupancy():
+    def occupancy(handoff=False):
         want = sum(r.snap[3] for r, d in entry.recs if not d) - sum(r.snap[3] for r in out.recs)
         if port.byte_size != want:
-            lab.flag("C09.honest_occupancy", f"byte_size={port.byte_size} but {want} bytes are held (t={lab.env.now})",
-                     "C09.honest_occupancy" + ("/rate0" if case["rate"] == 0 else ""))
+            lab.flag("C09.honest_occupancy", f"byte_size={port.byte_size} but {want} bytes are held (t={lab.env.now}"
+                                             f"{', read by the next hop while a packet is handed to it' if handoff else ''})",
+                     "C09.honest_occupancy" + ("/rate0" if case["rate"] == 0 else "") + ("/handoff" if handoff else ""))
     lab.after_step.append(occupancy)
+    # the next hop may read the port's occupancy the moment a packet is handed to it: that packet is not held any more
+    out.on_put = lambda rec: occupancy(True)
     lab.run()
     analyse(case, lab, port, entry, out, classes, case["exact"])
     nt = "accepted" in classes and "refused" in classes and \
@@ -275,7 +278,7 @@ def run_monitor(case):
         held = [h for h in accepted if h["arr"] < ts and (h["dep"] is None or h["dep"] > ts)]
         serving = [h for h in held if h["start"] is not None and h["start"] < ts]
         if len(serving) > 1:
-            raise HarnessError("two packets in service")
+            raise Violation("C09.service_law", f"two packets in transmission at t={float(ts)}", "C09.service_law/overlap")
         bytes_held = sum(h["size"] for h in held)
         waiting = len(held) - len(serving)
         if case["included"]:
